@@ -57,20 +57,39 @@ fn is_less(a: &SignedInteger, b: &SignedInteger) -> bool {
     }
 }
 
+impl RuleDeclSubrangeLimits {
+    /// Reports that the limits of the range are not valid.
+    fn report(&mut self, node: &Subrange) {
+        self.diagnostics.push(
+            Diagnostic::problem(
+                Problem::SubrangeMinStrictlyLessMax,
+                Label::span(node.start.value.span(), "Expected smaller value"),
+            )
+            .with_context("minimum", &node.start.to_string())
+            .with_context("maximum", &node.end.to_string())
+            .with_secondary(Label::span(node.end.value.span(), "Expected greater value")),
+        );
+    }
+}
+
 impl Visitor<Diagnostic> for RuleDeclSubrangeLimits {
     type Value = ();
 
     fn visit_subrange(&mut self, node: &Subrange) -> Result<(), Diagnostic> {
         if !is_less(&node.start, &node.end) {
-            self.diagnostics.push(
-                Diagnostic::problem(
-                    Problem::SubrangeMinStrictlyLessMax,
-                    Label::span(node.start.value.span(), "Expected smaller value"),
-                )
-                .with_context("minimum", &node.start.to_string())
-                .with_context("maximum", &node.end.to_string())
-                .with_secondary(Label::span(node.end.value.span(), "Expected greater value")),
-            );
+            self.report(node);
+        }
+        Ok(())
+    }
+
+    fn visit_array_subranges(&mut self, node: &ArraySubranges) -> Result<(), Diagnostic> {
+        // The bounds of an array dimension are not a subrange declaration. They
+        // are inclusive, so a dimension having a single element (0..0) is valid
+        // and only reversed bounds are an error.
+        for range in node.ranges.iter() {
+            if is_less(&range.end, &range.start) {
+                self.report(range);
+            }
         }
         Ok(())
     }
